@@ -3,7 +3,7 @@
 EXTENDS Trace_ArgParse
 Show(f) == [err |-> f.err, retargs |-> f.retargs, chain |-> f.chain, val |-> f.val, pos |-> f.pos, events |-> f.events,
             isSet |-> f.isSet, grey |-> f.grey, role |-> f.role, out |-> f.out, steps |-> f.steps]
-DInit == l = 1 /\ bad = [p \in Props |-> {}] /\ stat = [grey |-> 0, ok |-> 0, steps |-> 0] /\ j = <<>>
+DInit == l = 1 /\ bad = [p \in Props |-> {}] /\ stat = [k \in StatKeys |-> 0] /\ j = <<>>
 DNext == /\ l <= Len(TraceRecs) /\ l' = l + 1
          /\ PrintT(<<"SPEC", l, ToJson(Show(Final(TraceRecs[l], TraceRecs[l].argv)))>>)
          /\ j' = Judge(TraceRecs[l]) /\ PrintT(<<"JUDGE", l, j'>>)
